@@ -327,15 +327,6 @@ theorem Fits_self (d : List Nat) : Fits d d = true := by simp [Fits, fitsRev_sel
 
 theorem Compat_self (d : List Nat) : Compat d d = true := by simp [Compat, compatRev_self]
 
-/-- the stored operands have the shapes the forward operation left them with -/
-def TagShape (tag : OpTag S) (c : List (Tensor S)) (self : Tensor S) (nd : List Nat) : Prop :=
-  match tag with
-  | .add | .mul | .div => ∃ a b, c = [a, b] ∧ OperandOK a ∧ OperandOK b ∧ Compat a.dims b.dims = true ∧ nd = bdims a.dims b.dims
-  | .neg | .scale _ | .powf _ | .ln | .recip | .relu | .custom 2 => ∃ a, c = [a] ∧ OperandOK a ∧ nd = a.dims
-  | .exp | .sigmoid => ∃ a, c = [a] ∧ OperandOK a ∧ nd = a.dims ∧ self.vals.length = prod nd
-  | .reshape => ∃ a, c = [a] ∧ OperandOK a ∧ DimsOK nd ∧ prod nd = prod a.dims
-  | _ => False
-
 section tags
 variable [AddLaws S] [MulLaws S]
 
@@ -448,40 +439,6 @@ theorem vjp_lin_reshape (a self : Tensor S) (nd : List Nat) (f0 : Bool) (ha : Op
   have h1 : a.dims.all (fun d => decide (1 ≤ d)) = true := by simpa using ha.1.1
   have h2 : prod a.dims = x.vals.length := by rw [hx.2, hp]
   exact ⟨by simp [reshape, Tensor.mk?, h1, h2, pure, Except.pure], rfl, h2.symm⟩
-
-/-- **every modelled point-wise / broadcast / reshape closure is total, shape-correct and additive** on the
-    operands its forward operation stored -/
-theorem vjp_lin (tag : OpTag S) (c : List (Tensor S)) (self : Tensor S) (t : List Bool) (nd : List Nat)
-    (hs : TagShape tag c self nd) (ht : t.length = c.length) :
-    VjpLin (vjp tag c self) t nd (c.map (·.dims)) := by
-  have two : ∀ {a b : Tensor S}, t.length = [a, b].length → ∃ f0 f1, t = [f0, f1] := by
-    intro a b h
-    match t, h with
-    | [f0, f1], _ => exact ⟨f0, f1, rfl⟩
-  have one : ∀ {a : Tensor S}, t.length = [a].length → ∃ f0, t = [f0] := by
-    intro a h
-    match t, h with
-    | [f0], _ => exact ⟨f0, rfl⟩
-  cases tag with
-  | add => obtain ⟨a, b, rfl, ha, hb, hc, rfl⟩ := hs; obtain ⟨f0, f1, rfl⟩ := two ht; exact vjp_lin_add a b self f0 f1 ha hb hc
-  | mul => obtain ⟨a, b, rfl, ha, hb, hc, rfl⟩ := hs; obtain ⟨f0, f1, rfl⟩ := two ht; exact vjp_lin_mul a b self f0 f1 ha hb hc
-  | div => obtain ⟨a, b, rfl, ha, hb, hc, rfl⟩ := hs; obtain ⟨f0, f1, rfl⟩ := two ht; exact vjp_lin_div a b self f0 f1 ha hb hc
-  | neg => obtain ⟨a, rfl, ha, rfl⟩ := hs; obtain ⟨f0, rfl⟩ := one ht; exact vjp_lin_neg a self f0 ha
-  | scale s => obtain ⟨a, rfl, ha, rfl⟩ := hs; obtain ⟨f0, rfl⟩ := one ht; exact vjp_lin_scale s a self f0 ha
-  | powf e => obtain ⟨a, rfl, ha, rfl⟩ := hs; obtain ⟨f0, rfl⟩ := one ht; exact vjp_lin_powf e a self f0 ha
-  | ln => obtain ⟨a, rfl, ha, rfl⟩ := hs; obtain ⟨f0, rfl⟩ := one ht; exact vjp_lin_ln a self f0 ha
-  | recip => obtain ⟨a, rfl, ha, rfl⟩ := hs; obtain ⟨f0, rfl⟩ := one ht; exact vjp_lin_recip a self f0 ha
-  | relu => obtain ⟨a, rfl, ha, rfl⟩ := hs; obtain ⟨f0, rfl⟩ := one ht; exact vjp_lin_relu a self f0 ha
-  | exp => obtain ⟨a, rfl, ha, rfl, hl⟩ := hs; obtain ⟨f0, rfl⟩ := one ht; exact vjp_lin_exp a self f0 ha hl
-  | sigmoid => obtain ⟨a, rfl, ha, rfl, hl⟩ := hs; obtain ⟨f0, rfl⟩ := one ht; exact vjp_lin_sigmoid a self f0 ha hl
-  | reshape => obtain ⟨a, rfl, ha, hnd, hp⟩ := hs; obtain ⟨f0, rfl⟩ := one ht; exact vjp_lin_reshape a self nd f0 ha hnd hp
-  | custom k =>
-    match k, hs with
-    | 2, hs => obtain ⟨a, rfl, ha, rfl⟩ := hs; obtain ⟨f0, rfl⟩ := one ht; exact vjp_lin_custom2 a self f0 ha
-  | sum k => exact hs.elim
-  | matmul ta tb => exact hs.elim
-  | unroll d r cc sr sc fr fc => exact hs.elim
-  | expand => exact hs.elim
 
 end tags
 end Corgi
